@@ -79,9 +79,24 @@ func noNull(v any) any {
 
 func (t *Trace) emit(m M) {
 	noNull(m)
-	b, err := json.Marshal(m)
+	// "ev" always comes first (verifylib splits and cuts traces at lines starting with {"ev":"Reset"),
+	// whatever the other keys are called; the remaining keys are sorted by encoding/json.
+	ev, _ := m["ev"].(string)
+	rest := make(M, len(m))
+	for k, v := range m {
+		if k != "ev" {
+			rest[k] = v
+		}
+	}
+	b, err := json.Marshal(rest)
 	if err != nil {
 		panic(fmt.Sprintf("trace: cannot marshal %v: %v", m, err))
+	}
+	evb, _ := json.Marshal(ev)
+	if len(rest) == 0 {
+		b = []byte(`{"ev":` + string(evb) + `}`)
+	} else {
+		b = append([]byte(`{"ev":`+string(evb)+`,`), b[1:]...)
 	}
 	t.w.Write(b)
 	t.w.WriteByte('\n')
